@@ -215,3 +215,315 @@ Proof.
     destruct (shr192 z0 z1 z2) as [[r0 r1] r2]. destruct Hs as (Lr & Er).
     split; [exact Lr|]. exists 0. split; [lia|]. lia.
 Qed.
+
+Lemma cadd_M_limbs z0 z1 z2 : L3 z0 z1 z2 ->
+  let '(t0, t1, t2) := cadd_M z0 z1 z2 in L3 t0 t1 t2.
+Proof.
+  intros L. pose proof L as (H0 & H1 & H2). unfold cadd_M.
+  destruct (Z.land z0 1 =? 1); [|exact L].
+  rewrite M_lo, M_hi.
+  pose proof (add_192x192_spec z0 z1 z2 (2^64 - C) (2^64 - 1) 0 H0 H1 H2
+                ltac:(unfold C; lia) ltac:(lia) ltac:(lia)) as Ha.
+  destruct (f128_add_192x192 z0 z1 z2 (2^64 - C) (2^64 - 1) 0) as [[t0 t1] t2].
+  destruct Ha as (T0 & T1 & T2 & _). repeat split; lia.
+Qed.
+
+Lemma V3_parity z0 z1 z2 : V3 z0 z1 z2 mod 2 = z0 mod 2.
+Proof.
+  unfold V3. replace (z0 + z1 * 2^64 + z2 * 2^128) with (z0 + (z1 * 2^63 + z2 * 2^127) * 2) by ring.
+  apply Z.mod_add. lia.
+Qed.
+
+Lemma V3_nonneg z0 z1 z2 : L3 z0 z1 z2 -> 0 <= V3 z0 z1 z2 < 2^192.
+Proof. unfold L3, V3. lia. Qed.
+
+Lemma low128 z0 z1 : 0 <= z0 < 2^64 -> 0 <= z1 < 2^64 -> wrap 128 (z0 + shl 128 z1 64) = z0 + z1 * 2^64.
+Proof. intros H0 H1. rewrite shl_limb by exact H1. apply wrap_small. lia. Qed.
+
+Lemma limbs128 v : 0 <= v < 2^128 ->
+  L3 (wrap 64 v) (wrap 64 (shr v 64)) 0 /\ V3 (wrap 64 v) (wrap 64 (shr v 64)) 0 = v.
+Proof.
+  intros Hv. destruct (split64 v) as (H1 & H2 & H3); [lia|].
+  rewrite (wrap_small 64 (shr v 64)) by lia. unfold L3, V3. lia.
+Qed.
+
+(* ------------------------------------------------------------------ halving loop for (u, d) *)
+Definition HI (x v A : Z) (s : Z * Z * Z * Z * Z * Z) : Prop :=
+  let '(d0, d1, d2, u0, u1, u2) := s in
+  L3 d0 d1 d2 /\ L3 u0 u1 u2 /\ HV x (-1) v A (V3 u0 u1 u2) (V3 d0 d1 d2).
+
+Lemma hdu_step x v A : 0 < v -> forall s, HI x v A s -> hdu_cond s = true -> HI x v A (hdu_body s).
+Proof.
+  intros Hv [[[[[d0 d1] d2] u0] u1] u2]. unfold HI, hdu_cond, hdu_body.
+  intros (Ld & Lu & H) Hc.
+  pose proof (HV_bound _ _ _ _ _ _ Hv H) as Hb.
+  pose proof (halveM_spec d0 d1 d2 Ld ltac:(unfold M in *; lia)) as Hd.
+  destruct (cadd_M d0 d1 d2) as [[t0 t1] t2].
+  pose proof (shr192_spec u0 u1 u2 Lu) as Hu.
+  destruct (shr192 u0 u1 u2) as [[u0' u1'] u2']. destruct Hu as (Lu' & Eu).
+  destruct (shr192 t0 t1 t2) as [[d0' d1'] d2']. destruct Hd as (Ld' & e & He & Ed).
+  split; [exact Ld'|]. split; [exact Lu'|].
+  rewrite land1 in Hc. apply Z.eqb_eq in Hc. rewrite Hc, Z.add_0_r in Eu.
+  exact (HV_step x (-1) v A _ _ _ _ e Hv H Eu Ed He).
+Qed.
+
+(* ------------------------------------------------------------------ halving loop for (v, a) *)
+Definition AI (x U D : Z) (s : Z * Z * Z * Z) : Prop :=
+  let '(a0, a1, a2, v) := s in
+  L3 a0 a1 a2 /\ 0 <= v < 2^128 /\ (v = 0 \/ HV x 1 U D v (V3 a0 a1 a2)).
+
+Lemma hav_step x U D : 0 < U -> forall s, AI x U D s -> hav_cond s = true -> AI x U D (hav_body s).
+Proof.
+  intros HU [[[a0 a1] a2] v]. unfold AI, hav_cond, hav_body. cbv zeta.
+  intros (La & Hv & H) Hc. rewrite shr1.
+  assert (Hv2 : 0 <= v / 2 < 2^128).
+  { split; [apply Z.div_pos; lia|apply Z.div_lt_upper_bound; lia]. }
+  destruct H as [->|H].
+  - pose proof (cadd_M_limbs a0 a1 a2 La) as Hl.
+    destruct (cadd_M a0 a1 a2) as [[t0 t1] t2].
+    pose proof (shr192_spec t0 t1 t2 Hl) as Hs.
+    destruct (shr192 t0 t1 t2) as [[r0 r1] r2]. destruct Hs as (Lr & _).
+    split; [exact Lr|]. split; [exact Hv2|]. left. reflexivity.
+  - pose proof (HV_bound _ _ _ _ _ _ HU H) as Hb.
+    pose proof (halveM_spec a0 a1 a2 La ltac:(unfold M in *; lia)) as Ha.
+    destruct (cadd_M a0 a1 a2) as [[t0 t1] t2].
+    destruct (shr192 t0 t1 t2) as [[r0 r1] r2]. destruct Ha as (Lr & e & He & Ea).
+    split; [exact Lr|]. split; [exact Hv2|]. right.
+    rewrite land1 in Hc. apply Z.eqb_eq in Hc.
+    assert (Ev : v = 2 * (v / 2)) by (pose proof (Z.div_mod v 2 ltac:(lia)); lia).
+    exact (HV_step x 1 U D _ _ _ _ e HU H Ev Ea He).
+Qed.
+
+(* ------------------------------------------------------------------ the inner loop  while u > v *)
+Definition UV (x v A U D : Z) : Prop :=
+  0 < U /\ U mod 2 = 1 /\ 0 <= D /\ (M | D * x - (-1) * U) /\
+  exists n, pot U v n /\ 2 * A <= (n + 2) * M /\ 2 * D <= (n + 2) * M.
+
+Definition UI (x v A : Z) (s : Z * Z * Z * Z * Z * Z) : Prop :=
+  let '(u0, u1, u2, d0, d1, d2) := s in
+  L3 u0 u1 u2 /\ L3 d0 d1 d2 /\ UV x v A (V3 u0 u1 u2) (V3 d0 d1 d2).
+
+Lemma ul_cond_spec v u0 u1 u2 d0 d1 d2 : L3 u0 u1 u2 ->
+  (ul_cond v (u0, u1, u2, d0, d1, d2) = true -> v < V3 u0 u1 u2 \/ 2^128 <= V3 u0 u1 u2) /\
+  (ul_cond v (u0, u1, u2, d0, d1, d2) = false -> u2 = 0 /\ V3 u0 u1 u2 <= v).
+Proof.
+  intros (H0 & H1 & H2). unfold ul_cond. rewrite low128 by assumption. rewrite !Z.gtb_ltb.
+  unfold V3. destruct (Z.ltb_spec 0 u2); destruct (Z.ltb_spec v (u0 + u1 * 2^64)); cbn [orb];
+    split; intros; try discriminate; lia.
+Qed.
+
+Lemma HV_exit_odd x sg o Ko h K : HV x sg o Ko h K -> h mod 2 <> 0 ->
+  exists n, pot h o n /\ 2 * Ko <= (n + 2) * M /\ 2 * K <= (n + 2) * M.
+Proof.
+  intros (_ & _ & _ & n & Hp & HKo & Hor) Hodd. exists n. split; [exact Hp|]. split; [exact HKo|].
+  destruct Hor as [Ht|[He _]]; [exact Ht|contradiction].
+Qed.
+
+Lemma ul_step fuel x v a0 a1 a2 :
+  0 < v < 2^128 -> v mod 2 = 1 -> L3 a0 a1 a2 -> (M | V3 a0 a1 a2 * x - 1 * v) ->
+  forall s s', UI x v (V3 a0 a1 a2) s -> ul_cond v s = true -> ul_body fuel v a0 a1 a2 s = Some s' ->
+  UI x v (V3 a0 a1 a2) s'.
+Proof.
+  intros Hv Hvo La Hcg [[[[[u0 u1] u2] d0] d1] d2] s'. unfold UI at 1, ul_body.
+  intros (Lu & Ld & HU & HUo & HD & Hcd & n & Hp & HnA & HnD) Hc.
+  pose proof (V3_nonneg _ _ _ La) as HA. set (A := V3 a0 a1 a2) in *.
+  apply (proj1 (ul_cond_spec v u0 u1 u2 d0 d1 d2 Lu)) in Hc.
+  destruct (limbs128 v ltac:(lia)) as (Lv & Ev).
+  pose proof Lu as (U0 & U1 & U2). pose proof Ld as (D0 & D1 & D2). pose proof La as (A0 & A1 & A2).
+  pose proof Lv as (V0 & V1 & V2).
+  (* u - v *)
+  pose proof (sub_192x192_exact u0 u1 u2 (wrap 64 v) (wrap 64 (shr v 64)) 0 U0 U1 U2 V0 V1 V2) as Hs.
+  fold (V3 (wrap 64 v) (wrap 64 (shr v 64)) 0) (V3 u0 u1 u2) in Hs. rewrite Ev in Hs.
+  specialize (Hs ltac:(lia)).
+  destruct (f128_sub_192x192 u0 u1 u2 (wrap 64 v) (wrap 64 (shr v 64)) 0) as [[u0' u1'] u2'].
+  destruct Hs as (U0' & U1' & U2' & Eu). fold (V3 u0' u1' u2') in Eu.
+  (* d + a *)
+  pose proof (pot_bound _ v n HU ltac:(lia) Hp) as Hn. pose proof Hp as [Hn0 _].
+  pose proof (add_192x192_exact d0 d1 d2 a0 a1 a2 D0 D1 D2 A0 A1 A2) as Ha.
+  fold (V3 d0 d1 d2) (V3 a0 a1 a2) in Ha. fold A in Ha.
+  specialize (Ha ltac:(unfold M in *; lia)).
+  destruct (f128_add_192x192 d0 d1 d2 a0 a1 a2) as [[d0' d1'] d2'].
+  destruct Ha as (D0' & D1' & D2' & Ed). fold (V3 d0' d1' d2') in Ed.
+  set (U := V3 u0 u1 u2) in *. set (D := V3 d0 d1 d2) in *.
+  (* the halving loop *)
+  assert (I0 : HI x v A (d0', d1', d2', u0', u1', u2')).
+  { unfold HI. split; [repeat split; lia|]. split; [repeat split; lia|].
+    rewrite Eu, Ed. split; [lia|]. split; [lia|]. split.
+    - destruct Hcd as [k1 Hk1]. destruct Hcg as [k2 Hk2]. exists (k1 + k2).
+      replace ((D + A) * x - -1 * (U - v)) with ((D * x - -1 * U) + (A * x - 1 * v)) by ring.
+      rewrite Hk1, Hk2. ring.
+    - exists n. split; [apply (pot_le U); [lia|lia|exact Hp]|]. split; [exact HnA|]. right.
+      split; [|unfold M in *; lia].
+      pose proof (Z.div_mod U 2 ltac:(lia)). pose proof (Z.div_mod v 2 ltac:(lia)).
+      apply (mod_eq _ _ (U / 2 - v / 2)); lia. }
+  destruct (while_loop fuel hdu_cond hdu_body (d0', d1', d2', u0', u1', u2'))
+    as [[[[[[e0 e1] e2] w0] w1] w2]|] eqn:W; [|discriminate].
+  intros [= <-].
+  destruct (while_loop_inv (HI x v A) hdu_cond hdu_body (hdu_step x v A ltac:(lia)) fuel _ _ I0 W)
+    as ((Le & Lw & H) & Hc').
+  unfold hdu_cond in Hc'. rewrite land1 in Hc'. apply Z.eqb_neq in Hc'.
+  unfold UI. split; [exact Lw|]. split; [exact Le|].
+  assert (Hodd : V3 w0 w1 w2 mod 2 <> 0) by (rewrite V3_parity; exact Hc').
+  destruct (HV_exit_odd _ _ _ _ _ _ H Hodd) as (n' & Hp' & HA' & HD').
+  destruct H as (Hw & He & Hcg' & _).
+  split; [exact Hw|]. split.
+  { pose proof (Z.mod_pos_bound (V3 w0 w1 w2) 2 ltac:(lia)). lia. }
+  split; [exact He|]. split; [exact Hcg'|]. exists n'. auto.
+Qed.
+
+(* ------------------------------------------------------------------ the outer loop  while v != 1 *)
+Definition OV (x U D v A : Z) : Prop :=
+  0 < v < 2^128 /\ v mod 2 = 1 /\ (M | A * x - 1 * v) /\ UV x v A U D.
+
+Definition OI (x : Z) (s : st10) : Prop :=
+  let '(u0, u1, u2, d0, d1, d2, v, a0, a1, a2) := s in
+  L3 u0 u1 u2 /\ L3 d0 d1 d2 /\ L3 a0 a1 a2 /\ OV x (V3 u0 u1 u2) (V3 d0 d1 d2) v (V3 a0 a1 a2).
+
+Lemma ol_step fuel x : forall s s', OI x s -> ol_cond s = true -> ol_body fuel s = Some s' -> OI x s'.
+Proof.
+  intros [[[[[[[[[u0 u1] u2] d0] d1] d2] v] a0] a1] a2] s'. unfold OI at 1, ol_body.
+  intros (Lu & Ld & La & Hv & Hvo & Hcg & HUV) _.
+  destruct (while_loop_o fuel (ul_cond v) (ul_body fuel v a0 a1 a2) (u0, u1, u2, d0, d1, d2))
+    as [[[[[[w0 w1] w2] e0] e1] e2]|] eqn:W; [|discriminate].
+  assert (I0 : UI x v (V3 a0 a1 a2) (u0, u1, u2, d0, d1, d2)) by (unfold UI; auto).
+  destruct (while_loop_o_inv (UI x v (V3 a0 a1 a2)) (ul_cond v) (ul_body fuel v a0 a1 a2)
+              (ul_step fuel x v a0 a1 a2 Hv Hvo La Hcg) fuel _ _ I0 W) as ((Lw & Le & HUV') & Hc).
+  clear I0 W HUV Lu Ld u0 u1 u2 d0 d1 d2.
+  apply (proj2 (ul_cond_spec v w0 w1 w2 e0 e1 e2 Lw)) in Hc. destruct Hc as (Hw2 & Hle).
+  destruct HUV' as (HU & HUo & HD & Hcd & n & Hp & HnA & HnD).
+  pose proof Lw as (W0 & W1 & W2). pose proof Le as (E0 & E1 & E2). pose proof La as (A0 & A1 & A2).
+  rewrite low128 by assumption.
+  assert (EU : V3 w0 w1 w2 = w0 + w1 * 2^64) by (unfold V3; subst w2; ring).
+  rewrite <- EU. set (U := V3 w0 w1 w2) in *.
+  rewrite (wrap_small 128 (v - U)) by lia.
+  (* a + d *)
+  pose proof (V3_nonneg _ _ _ La) as HA.
+  pose proof (pot_bound _ v n HU ltac:(lia) Hp) as Hn. pose proof Hp as [Hn0 _].
+  pose proof (add_192x192_exact a0 a1 a2 e0 e1 e2 A0 A1 A2 E0 E1 E2) as Ha.
+  fold (V3 a0 a1 a2) (V3 e0 e1 e2) in Ha.
+  set (A := V3 a0 a1 a2) in *. set (D := V3 e0 e1 e2) in *.
+  specialize (Ha ltac:(unfold M in *; lia)).
+  destruct (f128_add_192x192 a0 a1 a2 e0 e1 e2) as [[a0' a1'] a2'].
+  destruct Ha as (A0' & A1' & A2' & Ea). fold (V3 a0' a1' a2') in Ea.
+  assert (I0 : AI x U D (a0', a1', a2', v - U)).
+  { unfold AI. split; [repeat split; lia|]. split; [lia|].
+    destruct (Z.eq_dec (v - U) 0) as [E|E]; [left; exact E|right].
+    rewrite Ea. split; [lia|]. split; [lia|]. split.
+    - destruct Hcd as [k1 Hk1]. destruct Hcg as [k2 Hk2]. exists (k1 + k2).
+      replace ((A + D) * x - 1 * (v - U)) with ((D * x - -1 * U) + (A * x - 1 * v)) by ring.
+      rewrite Hk1, Hk2. ring.
+    - exists n. split; [apply (pot_le v); [lia|lia|apply pot_sym; exact Hp]|]. split; [exact HnD|]. right.
+      split; [|unfold M in *; lia].
+      pose proof (Z.div_mod U 2 ltac:(lia)). pose proof (Z.div_mod v 2 ltac:(lia)).
+      apply (mod_eq _ _ (v / 2 - U / 2)); lia. }
+  destruct (while_loop fuel hav_cond hav_body (a0', a1', a2', v - U))
+    as [[[[b0 b1] b2] v']|] eqn:W; [|discriminate].
+  intros [= <-].
+  destruct (while_loop_inv (AI x U D) hav_cond hav_body (hav_step x U D HU) fuel _ _ I0 W)
+    as ((Lb & Hv' & H) & Hc').
+  unfold hav_cond in Hc'. rewrite land1 in Hc'. apply Z.eqb_neq in Hc'.
+  destruct H as [->|H]; [exfalso; apply Hc'; reflexivity|].
+  destruct (HV_exit_odd _ _ _ _ _ _ H Hc') as (n' & Hp' & HD' & HA').
+  destruct H as (Hv'0 & Hb & Hcg' & _).
+  unfold OI. split; [exact Lw|]. split; [exact Le|]. split; [exact Lb|].
+  unfold OV. split; [lia|]. split.
+  { pose proof (Z.mod_pos_bound v' 2 ltac:(lia)). lia. }
+  split; [exact Hcg'|].
+  unfold UV. split; [exact HU|]. split; [exact HUo|]. split; [exact HD|]. split; [exact Hcd|].
+  exists n'. split; [apply pot_sym; exact Hp'|]. auto.
+Qed.
+
+(* ------------------------------------------------------------------ final reduction  while a >= M *)
+Definition FI (x : Z) (s : Z * Z * Z * Z) : Prop :=
+  let '(a0, a1, a2, a) := s in
+  L3 a0 a1 a2 /\ a = a0 + a1 * 2^64 /\ (M | V3 a0 a1 a2 * x - 1).
+
+Lemma fin_step x : forall s, FI x s -> fin_cond s = true -> FI x (fin_body s).
+Proof.
+  intros [[[a0 a1] a2] a]. unfold FI, fin_cond, fin_body. cbv zeta.
+  intros (La & Ea & Hcg) Hc. pose proof La as (A0 & A1 & A2).
+  rewrite M_lo, M_hi. rewrite M_eq, Z.gtb_ltb, Z.geb_leb in Hc.
+  assert (HM : M <= V3 a0 a1 a2).
+  { unfold V3. destruct (Z.ltb_spec 0 a2); destruct (Z.leb_spec M a); cbn [orb] in Hc;
+      try discriminate; unfold M in *; lia. }
+  pose proof (sub_192x192_exact a0 a1 a2 (2^64 - C) (2^64 - 1) 0 A0 A1 A2
+                ltac:(unfold C; lia) ltac:(lia) ltac:(lia)) as Hs.
+  unfold V3 in HM. rewrite M_limbs in HM. specialize (Hs ltac:(lia)).
+  destruct (f128_sub_192x192 a0 a1 a2 (2^64 - C) (2^64 - 1) 0) as [[b0 b1] b2].
+  destruct Hs as (B0 & B1 & B2 & Eb).
+  split; [repeat split; lia|]. split; [apply low128; lia|].
+  destruct Hcg as [k Hk]. exists (k - x).
+  assert (E : V3 b0 b1 b2 = V3 a0 a1 a2 - M) by (unfold V3; rewrite M_limbs; lia).
+  rewrite E. replace ((V3 a0 a1 a2 - M) * x - 1) with (V3 a0 a1 a2 * x - 1 - x * M) by ring.
+  rewrite Hk. ring.
+Qed.
+
+(* ------------------------------------------------------------------ initial state *)
+Lemma inv_init_spec x : 0 < x < M ->
+  let '(u0, u1, u2) := inv_init_u x in
+  OI x (u0, u1, u2, wrap 64 (Z.sub (wrap 64 f128_M) 1), wrap 64 (shr f128_M 64), 0, f128_M, 0, 0, 0).
+Proof.
+  intros Hx. unfold inv_init_u. rewrite land1.
+  destruct (limbs128 x ltac:(unfold M in *; lia)) as (Lx & Ex).
+  pose proof Lx as (X0 & X1 & X2).
+  assert (Ld : L3 (wrap 64 (wrap 64 f128_M - 1)) (wrap 64 (shr f128_M 64)) 0)
+    by (repeat split; (discriminate || reflexivity)).
+  assert (Ed : V3 (wrap 64 (wrap 64 f128_M - 1)) (wrap 64 (shr f128_M 64)) 0 = M - 1) by reflexivity.
+  assert (La : L3 0 0 0) by (repeat split; lia).
+  assert (Hfin : forall u0 u1 u2, L3 u0 u1 u2 -> V3 u0 u1 u2 mod 2 = 1 ->
+            (V3 u0 u1 u2 = x \/ V3 u0 u1 u2 = x + M) ->
+            OI x (u0, u1, u2, wrap 64 (wrap 64 f128_M - 1), wrap 64 (shr f128_M 64), 0, f128_M, 0, 0, 0)).
+  { intros u0 u1 u2 Lu Hodd HU. unfold OI. split; [exact Lu|]. split; [exact Ld|]. split; [exact La|].
+    rewrite Ed, M_eq. change (V3 0 0 0) with 0. set (U := V3 u0 u1 u2) in *.
+    unfold OV. split; [unfold M; lia|]. split; [reflexivity|]. split.
+    { exists (-1). ring. }
+    unfold UV. split; [lia|]. split; [exact Hodd|]. split; [unfold M; lia|]. split.
+    { destruct HU as [->| ->]; [exists x|exists (x + 1)]; ring. }
+    exists 0. split; [|unfold M; lia].
+    split; [lia|]. rewrite Z.pow_0_r, Z.mul_1_r. unfold M in *. lia. }
+  destruct (Z.eqb_spec (x mod 2) 1) as [E|E].
+  - apply Hfin; [exact Lx| rewrite Ex; exact E | left; exact Ex].
+  - rewrite M_lo, M_hi.
+    pose proof (add_192x192_exact (wrap 64 x) (wrap 64 (shr x 64)) 0 (2^64 - C) (2^64 - 1) 0 X0 X1 X2
+                  ltac:(unfold C; lia) ltac:(lia) ltac:(lia)) as Ha.
+    fold (V3 (wrap 64 x) (wrap 64 (shr x 64)) 0) in Ha. rewrite Ex in Ha.
+    specialize (Ha ltac:(unfold M, C in *; lia)).
+    destruct (f128_add_192x192 (wrap 64 x) (wrap 64 (shr x 64)) 0 (2^64 - C) (2^64 - 1) 0) as [[u0 u1] u2].
+    destruct Ha as (U0 & U1 & U2 & Eu). fold (V3 u0 u1 u2) in Eu.
+    assert (EU : V3 u0 u1 u2 = x + M) by (rewrite Eu, M_limbs; lia).
+    apply Hfin; [repeat split; lia| |right; exact EU].
+    rewrite EU.
+    pose proof (Z.div_mod x 2 ltac:(lia)). pose proof (Z.mod_pos_bound x 2 ltac:(lia)).
+    set (h := (M - 1) / 2). assert (EM : M = 2 * h + 1) by reflexivity.
+    apply (mod_eq _ _ (x / 2 + h)); lia.
+Qed.
+
+(* ------------------------------------------------------------------ partial correctness *)
+Theorem f128_inv_sound_partial fuel x r : repr128 x -> f128_fn_inv fuel x = Some r ->
+  repr128 r /\ (r * x) mod M = (if x =? 0 then 0 else 1).
+Proof.
+  unfold repr128. intros Hx. rewrite f128_fn_inv_unfold.
+  destruct (Z.eqb_spec x 0) as [->|Hnz].
+  { intros [= <-]. split; [unfold M; lia|reflexivity]. }
+  pose proof (inv_init_spec x ltac:(lia)) as I0.
+  destruct (inv_init_u x) as [[u0 u1] u2].
+  destruct (while_loop_o fuel ol_cond (ol_body fuel) _)
+    as [[[[[[[[[[w0 w1] w2] e0] e1] e2] v] a0] a1] a2]|] eqn:W; [|discriminate].
+  destruct (while_loop_o_inv (OI x) ol_cond (ol_body fuel) (ol_step fuel x) fuel _ _ I0 W)
+    as ((Lw & Le & La & Hv & Hvo & Hcg & _) & Hc).
+  unfold ol_cond in Hc. apply negb_false_iff, Z.eqb_eq in Hc. subst v.
+  pose proof La as (A0 & A1 & A2).
+  assert (F0 : FI x (a0, a1, a2, wrap 128 (a0 + shl 128 a1 64))).
+  { unfold FI. split; [exact La|]. split; [apply low128; lia|exact Hcg]. }
+  destruct (while_loop fuel fin_cond fin_body _) as [[[[b0 b1] b2] b]|] eqn:W2; [|discriminate].
+  intros [= <-].
+  destruct (while_loop_inv (FI x) fin_cond fin_body (fin_step x) fuel _ _ F0 W2)
+    as ((Lb & Eb & Hcg') & Hc').
+  unfold fin_cond in Hc'. rewrite M_eq, Z.gtb_ltb, Z.geb_leb in Hc'.
+  pose proof Lb as (B0 & B1 & B2).
+  destruct (Z.ltb_spec 0 b2); [discriminate|]. destruct (Z.leb_spec M b); [discriminate|].
+  assert (b2 = 0) by lia. subst b2.
+  assert (EV : V3 b0 b1 0 = b) by (unfold V3; lia). rewrite EV in Hcg'.
+  split; [lia|]. destruct Hcg' as [k Hk].
+  apply (mod_eq _ _ k); [unfold M; lia|lia].
+Qed.
